@@ -78,6 +78,29 @@ Example C03_example :
   o_id (snd (step (fst (run s0 pre)) (OMatch ASnap 0 (B "TestA/b") (POk (B "z"))))) = B "[TestA/b - 2]".
 Proof. vm_compute. split; reflexivity. Qed.
 
+(* two rewrites of DIFFERENT slots give the same file, byte for byte, whichever comes first: rewrites of different
+   entries are order-independent (so every serial order of two updating tests leaves the same file) ... *)
+Theorem C03_rewrites_commute : forall t1 s1 t2 s2 es,
+  Forall wf_entry es -> wf_entry (t1, s1) -> wf_entry (t2, s2) ->
+  no_collision t1 es -> no_collision t2 es ->
+  ~ In t1 (split_nl s2) -> ~ In t2 (split_nl s1) -> t1 <> t2 ->
+  update_entry t1 s1 (update_entry t2 s2 (render es)) =
+  update_entry t2 s2 (update_entry t1 s1 (render es)).
+Proof. exact updates_commute. Qed.
+Print Assumptions C03_rewrites_commute.
+
+(* ... and after both, each of the two slots replays its own new value *)
+Theorem C03_rewrites_both_set : forall t1 s1 t2 s2 es,
+  Forall wf_entry es -> wf_entry (t1, s1) -> wf_entry (t2, s2) ->
+  no_collision t1 es -> no_collision t2 es ->
+  ~ In t1 (split_nl s1) -> ~ In t2 (split_nl s2) ->
+  ~ In t1 (split_nl s2) -> ~ In t2 (split_nl s1) -> t1 <> t2 ->
+  lookup_entry t1 es <> None -> lookup_entry t2 es <> None ->
+  let f := update_entry t1 s1 (update_entry t2 s2 (render es)) in
+  option_map fst (get_prev t1 f) = Some s1 /\ option_map fst (get_prev t2 f) = Some s2.
+Proof. exact updates_both_set. Qed.
+Print Assumptions C03_rewrites_both_set.
+
 (* non-vacuity: every theorem of this file that has hypotheses has a concrete, non-trivial instance meeting ALL of them
    (lemmas <Theorem>_witness / <Theorem>_applied in Proofs/WitnessesP.v); a representative one is restated here *)
 From Snaps Require Import Proofs.WitnessesP.
@@ -92,3 +115,17 @@ Example C03_witnesses :
    w03_tidB <> [] /\ w03_tidB <> endseq /\ w03_tidC <> [] /\ w03_tidC <> endseq /\ w03_tidC <> w03_tidB) /\
   (wf_file w03_file /\ safe_line w03_tidD /\ safe_text w03_bodyD /\ In w03_tidB (split_nl w03_bodyD)).
 Proof. exact C03_witnesses_all. Qed.
+
+(* non-vacuity of C03_rewrites_commute / C03_rewrites_both_set (Proofs/IsolationWitnessP.v): a three-entry file, its
+   middle and last slots rewritten, both rewrites changing the file *)
+From Snaps Require Import Proofs.IsolationWitnessP.
+Example C03_rewrites_witnesses :
+  (Forall wf_entry w03_es /\ wf_entry (w03_tidB, w03_snap) /\ wf_entry (w03_tidC, wiso_snapC) /\
+   no_collision w03_tidB w03_es /\ no_collision w03_tidC w03_es /\
+   ~ In w03_tidB (split_nl w03_snap) /\ ~ In w03_tidC (split_nl wiso_snapC) /\
+   ~ In w03_tidB (split_nl wiso_snapC) /\ ~ In w03_tidC (split_nl w03_snap) /\ w03_tidB <> w03_tidC /\
+   lookup_entry w03_tidB w03_es <> None /\ lookup_entry w03_tidC w03_es <> None /\
+   lookup_entry w03_tidB w03_es <> Some w03_snap /\ lookup_entry w03_tidC w03_es <> Some wiso_snapC) /\
+  update_entry w03_tidB w03_snap (update_entry w03_tidC wiso_snapC (render w03_es)) =
+  render [(w03_tidA, w03_bodyA); (w03_tidB, w03_snap); (w03_tidC, wiso_snapC)].
+Proof. exact (conj updates_commute_witness (proj2 updates_commute_applied)). Qed.
